@@ -51,7 +51,16 @@ def run(ctx):
         ctx.evidence(dict(evaluations=0, distinct_nontrivial=0, rule="harness did not run", samples=[]))
         return
     batch_notes = [c for c in cases if c.get("kind") == "batch"]
-    cases = [c for c in cases if c.get("kind") != "batch"]
+    large = [c for c in cases if c.get("kind") == "large"]
+    cases = [c for c in cases if c.get("kind") not in ("batch", "large")]
+    # large plans (6 000 - 20 000 objects): judged by the harness's own monitor (ids pairwise distinct, non-nil, v7, never
+    # seen before, plan accepted and readable) - this is the premise of c16_submit checked on the real id source
+    ctx.oblige("large plans submitted and judged (%d)" % len(large), bool(large) or bool(ctx.replay))
+    for c in large:
+        if not c["dist"]["ok"]:
+            ctx.violation(dict(kind="c16-large-plan-ids", why="a well-formed plan of %d objects: %s" % (c["dist"]["objects"], c.get("note", "")),
+                               case=c["id"], input=c["input"], observed=c["observed"],
+                               replay_cmd="VERIF_SEED=%s ./check C16 --tier %s   (or: .work/bin/c16 -n 0 -second 0 -conc 400 -out -)" % (ctx.seed, ctx.tier)))
     for b in batch_notes:
         ctx.violation(dict(kind="c16-concurrent-batch", why=b.get("note", ""), case=b.get("id"),
                            replay_cmd="VERIF_SEED=%s ./check C16 --tier %s" % (ctx.seed, ctx.tier)))
@@ -116,12 +125,17 @@ def run(ctx):
              "in the second half - alternately malformed and well formed, on the same Workstream), then a concurrent batch (bigger plans, "
              "every 3rd valid, workflow.Validate from 8 goroutines at once, then Workstream.Submit from 8 goroutines at once on one Workstream; "
              "rows judged per plan id / plan name / request nonce, and the tables must grow by exactly the accepted plans' objects); "
+             "with the concurrent batch, three large valid plans (1 x 100 x 200 = 20 106 objects on its own; 60 x 10 x 10 and 1 x 40 x 150 while the "
+             "batch's Submits run) go through Submit on a second Workstream (in-memory vault) and are judged on the Go side only: ids pairwise "
+             "distinct, non-nil, v7, never seen before in the process, plan accepted and read back with the same ids; "
              "half of the sequential valid plans have their stored form altered through the vault (Update*: state / attempts / reason; Create: id version, "
              "submit time zero / 31 min / 29 min old, non-check plugin) before Start is called; "
              "distinct = distinct (plan term, verdicts) by hash; non-trivial = at least one mutation applied or more than 3 objects"
              % len(set(muts) - {"(none: valid plan)"}),
         samples=[dict(id=c["id"], input=c["input"], dist=c["dist"], observed=c["observed"]) for c in cases[:4]],
         traces_validated_against_impl=len(cases),
+        large_plans=[dict(id=c["id"], objects=c["dist"]["objects"], during=c["dist"]["during"], ok=c["dist"]["ok"],
+                          submit_ms=c["observed"]["submit_ms"]) for c in large],
         submit_accepted=acc, submit_rejected=rej, submit_panicked=sum(1 for c in cases if c["dist"]["submit"] == 2),
         accept_ratio=round(acc / max(1, acc + rej), 3),
         validate_accepted=sum(1 for c in cases if c["dist"]["validate"] == 1),
@@ -137,7 +151,7 @@ def run(ctx):
     ), assumptions=[
         "abstraction of Go values to Coq terms by harness/plancoq (strings.TrimSpace, uuid.Version, reflect.TypeOf, encoding/json) and harness/c16lib (request canonicalisation: empty = nil slices/maps inside requests)",
         "a_plugreg (registered / is-check / accepts-request) is the harness's own knowledge of its plugins; for Submit it is the verdict on the request after the request's own Defaults()",
-        "uuid.NewV7 yields distinct version-7 ids (premise supply_inj / supply_v7 of c16_submit; observed on every stored plan)",
+        "workflow.NewV7 yields distinct version-7 ids (premise supply_inj / supply_v7 of c16_submit): observed on every stored plan and, for runs of 6 000 - 20 000 ids drawn back to back, on the large plans",
         "store.Create either stores the plan or fails (create_ok, property C14's subject); sqlite vault only",
         "concurrent batch: overlap of the 8 goroutines is up to the Go scheduler (400 calls each of Validate and Submit in the quick tier); correct code has no shared state, so verdicts are per plan",
         "Not covered: plans with shared pointers (the model is over trees; Submit rejects them: register already set); cosmosdb vault",
